@@ -14,6 +14,14 @@
 (*   "trunc"    drop the last i bytes of the sealed output (this includes  *)
 (*              inputs shorter than the tag)                               *)
 (*   "ext"      append i bytes                                             *)
+(*   "tagmask"  correlated multi-position change of the 16-byte tag: xor   *)
+(*              with b every tag byte whose index is set in the 16-bit     *)
+(*              position mask i.  The classes mirror how tag comparisons   *)
+(*              are implemented (word-wise accumulation): byte k and k+8   *)
+(*              (the same delta in both 8-byte halves), the same delta in  *)
+(*              two, three or four 4-byte words, the same delta on several *)
+(*              bytes of both halves, all sixteen bytes                    *)
+(*   "tagswap"  i = 0: swap the 8-byte halves; i = 1: rotate by 4 bytes    *)
 (* The model's prediction for every such input is AEAD!Open = Rejected, no *)
 (* plaintext.  For the EvalBases TLC *evaluates* AEAD!Open on every        *)
 (* tampered input (invariant Rejects: the model-level statement, decided   *)
@@ -23,11 +31,12 @@
 (* code; variants "secretbox"/"box" (NaCl: tag first, no AD) have no       *)
 (* executable model here (XSalsa20 is C09/C10) and are predicted by class. *)
 (***************************************************************************)
-EXTENDS AEAD, TLC, Json
+EXTENDS AEAD, TLC, Json, FiniteSets
 
 CONSTANTS Bases,      \* set of <<variant, ptLen, adLen>> printed for replay
           EvalBases,  \* subset evaluated in the model
           EvalBits,   \* bit indices flipped per byte in the model evaluation
+          EvalMasks,  \* xor masks used for the "tagmask" class in the model evaluation
           Seed        \* <<kseed, nseed, pseed, aseed>>
 VARIABLE c
 
@@ -38,7 +47,19 @@ NonceOf(v) == Pat(Seed[2], NonceLen(v))
 PtOf(n) == Pat(Seed[3], n)
 AdOf(n) == Pat(Seed[4], n)
 
-TamperSet(base, bits) ==
+\* position masks of the correlated tag modifications (bit k = tag byte k)
+Pow2(k) == 2^k
+RECURSIVE SumPow(_)
+SumPow(S) == IF S = {} THEN 0 ELSE LET x == CHOOSE y \in S : TRUE IN Pow2(x) + SumPow(S \ {x})
+TagPosMasks ==
+       {Pow2(k) + Pow2(k + 8) : k \in 0..7}                                          \* byte k of both halves
+  \cup UNION {{SumPow(S) : S \in {T \in SUBSET {j, j + 4, j + 8, j + 12} : Cardinality(T) >= 2}} : j \in 0..3}   \* byte j of 2..4 words
+  \cup {SumPow(S \cup {k + 8 : k \in S}) : S \in {{0, 1}, {0, 7}, {3, 4}, {0, 1, 2, 3}, 0..7}}    \* several bytes of both halves
+TagMasks == {1, 90, 128, 255}
+\* where the tag sits in the sealed output: at the end (RFC 8439) or at the start (NaCl)
+TagOff(v, sl) == IF v \in {"std", "x"} THEN sl - 16 ELSE 0
+
+TamperSet(base, bits, masks) ==
   LET v == base[1]  pl == base[2]  al == base[3]  sl == pl + 16 IN
        {<<"sealed", i, b>> : i \in 0..(sl - 1), b \in bits}
   \cup {<<"sealedff", i, 0>> : i \in 0..(sl - 1)}
@@ -48,6 +69,8 @@ TamperSet(base, bits) ==
   \cup {<<"key", i, b>> : i \in 0..31, b \in bits}
   \cup {<<"trunc", n, 0>> : n \in 1..(IF sl < 32 THEN sl ELSE 32)}
   \cup {<<"ext", n, 0>> : n \in 1..32}
+  \cup {<<"tagmask", pm, m>> : pm \in TagPosMasks, m \in masks}
+  \cup {<<"tagswap", 0, 0>>, <<"tagswap", 1, 0>>}
 
 SealedOf(base) == Seal(KeyOf, NonceOf(base[1]), PtOf(base[2]), AdOf(base[3]))
 
@@ -58,9 +81,9 @@ Next == \/ c.t = "root" /\ c' \in {[t |-> "bgrp", j |-> j] : j \in 0..7}
         \/ c.t = "base" /\ c.base \in EvalBases
                         /\ LET S == SealedOf(c.base) IN
                            c' \in {[t |-> "kind", base |-> c.base, k |-> k, sealed |-> S] :
-                                      k \in {"sealed", "sealedff", "ad", "adext", "adtrunc", "nonce", "key", "trunc", "ext"}}
+                                      k \in {"sealed", "sealedff", "ad", "adext", "adtrunc", "nonce", "key", "trunc", "ext", "tagmask", "tagswap"}}
         \/ c.t = "kind" /\ c' \in {[t |-> "tam", base |-> c.base, d |-> d, sealed |-> c.sealed] :
-                                       d \in {x \in TamperSet(c.base, EvalBits) : x[1] = c.k}}
+                                       d \in {x \in TamperSet(c.base, EvalBits, EvalMasks) : x[1] = c.k}}
 
 \* the tampered inputs of Open (sealed = the untampered Seal output)
 Tampered(base, d, sealed) ==
@@ -77,6 +100,12 @@ Tampered(base, d, sealed) ==
                    [] k = "sealedff" -> [sealed EXCEPT ![i + 1] = sealed[i + 1] ^^ 255]
                    [] k = "trunc" -> SubSeq(sealed, 1, Len(sealed) - i)
                    [] k = "ext" -> sealed \o Pat(99, i)
+                   [] k = "tagmask" -> LET off == TagOff(v, Len(sealed)) IN
+                        [j \in 1..Len(sealed) |-> IF j > off /\ j <= off + 16 /\ (i \div Pow2(j - off - 1)) % 2 = 1
+                                                  THEN sealed[j] ^^ b ELSE sealed[j]]
+                   [] k = "tagswap" -> LET off == TagOff(v, Len(sealed))  sh == IF i = 0 THEN 8 ELSE 4 IN
+                        [j \in 1..Len(sealed) |-> IF j > off /\ j <= off + 16
+                                                  THEN sealed[off + 1 + ((j - off - 1 + sh) % 16)] ELSE sealed[j]]
                    [] OTHER -> sealed]
 
 Rejects == (c.t = "tam") =>
@@ -86,13 +115,14 @@ Emit == (c.t = "base") =>
   PrintT("TRACE " \o ToJson([v |-> c.base[1], ptLen |-> c.base[2], adLen |-> c.base[3],
                              kseed |-> Seed[1], nseed |-> Seed[2], pseed |-> Seed[3], aseed |-> Seed[4],
                              sealed |-> IF HasAD(c.base[1]) THEN SealedOf(c.base) ELSE <<>>,
-                             tampers |-> TamperSet(c.base, 0..7)]))
+                             tampers |-> TamperSet(c.base, 0..7, TagMasks)]))
 
 \* ---- instances
 Lens(S, A, V) == {<<v, p, a>> : v \in V, p \in S, a \in A}
-BasesQuick == Lens({0, 1, 15, 16, 17, 33, 64, 65, 80}, {0, 13}, {"std", "x"}) \cup Lens({0, 1, 16, 31, 32, 33, 65, 80}, {0}, {"secretbox", "box"})
+BasesQuick == Lens({0, 1, 15, 16, 17, 33, 64, 65, 80}, {0, 13}, {"std", "x"}) \cup Lens({17}, {269}, {"std", "x"}) \cup Lens({0, 1, 16, 31, 32, 33, 65, 80}, {0}, {"secretbox", "box"})
 EvalQuick == {<<"std", 1, 5>>, <<"x", 17, 0>>}
 BasesThorough == Lens((0..40) \cup {47, 48, 49, 63, 64, 65, 79, 80, 81, 127, 128, 129, 193, 257, 321, 513, 600}, {0, 13, 33}, {"std", "x"})
+           \cup Lens({17, 129}, {269, 525}, {"std", "x"})
            \cup Lens((0..40) \cup {63, 64, 65, 80, 129, 600}, {0}, {"secretbox", "box"})
 EvalThorough == {<<"std", 1, 5>>, <<"x", 17, 0>>, <<"std", 33, 13>>, <<"x", 0, 17>>, <<"std", 64, 0>>, <<"x", 65, 13>>, <<"std", 0, 0>>, <<"std", 16, 33>>}
 SeedQ == <<7, 11, 5, 9>>
